@@ -273,6 +273,19 @@ func cutPoints(r *prng.Rand, n int, spans []refcodec.Span, all int) []int {
 		out = append(out, k)
 	}
 	sort.Ints(out)
+	// the work per value stays bounded: about 40 MB of input bytes over all cuts
+	limit := 40_000_000 / (n + 1)
+	if limit < 48 {
+		limit = 48
+	}
+	if len(out) > limit {
+		for i := 0; i < limit; i++ {
+			j := i + r.Intn(len(out)-i)
+			out[i], out[j] = out[j], out[i]
+		}
+		out = out[:limit]
+		sort.Ints(out)
+	}
 	return out
 }
 
@@ -469,7 +482,13 @@ func runC08(c *Ctx) *Replay {
 	c.Sample(map[string]interface{}{"program": b.Name(), "type": pk.Type, "shape": shape, "write_calls": W, "bytes": B,
 		"faults": "every Write call k<W (bare+partial, permanent/transient), every read offset k<B (bare/partial, permanent/transient)"})
 	// writer: every call index
-	for k := 0; k < W && k < 3000; k++ {
+	// every call index for ordinary values; for very large ones a stride keeps the bytes
+	// encoded over all faulted runs near 40 MB
+	stride := 1
+	if maxW := 40_000_000/(B+1) + 64; W > maxW {
+		stride = (W + maxW - 1) / maxW
+	}
+	for k := c.R.Intn(stride); k < W && k/stride < 3000; k += stride {
 		for variant := 0; variant < 2; variant++ {
 			sc := base
 			sc.Kind = "wfault"
